@@ -3897,6 +3897,14 @@ impl Zeroconf {
                             continue;
                         }
                     }
+                    // Pending resolve queries for instances of this type.
+                    if let Command::Resolve(instance, _) = &self.retransmissions[i].command {
+                        if instance.ends_with(&format!(".{ty}")) {
+                            self.pending_resolves.remove(instance);
+                            self.retransmissions.remove(i);
+                            continue;
+                        }
+                    }
                     i += 1;
                 }
 
